@@ -88,6 +88,9 @@ class TLCResult:
 
 
 _spec_copy = None
+_cfg_seq = 0
+import threading
+_cfg_lock = threading.Lock()
 
 
 def spec_copy():
@@ -109,7 +112,12 @@ def tlc(module, cfg, env=None, workers=None, timeout=600, simulate=None, depth=N
     meta = tempfile.mkdtemp(prefix="meta-", dir=os.path.dirname(sc))
     cfgpath = os.path.join(sc, "cfg", cfg)
     # TLC resolves the config relative to the spec; copy next to it under a unique name
-    local_cfg = os.path.join(sc, "_%s_%d_%s" % (module, os.getpid(), os.path.basename(cfg)))
+    global _cfg_seq
+    with _cfg_lock:
+        _cfg_seq += 1
+        seq = _cfg_seq
+    # unique per call: checks run several TLC instances of one module/config concurrently (threads)
+    local_cfg = os.path.join(sc, "_%s_%d_%d_%s" % (module, os.getpid(), seq, os.path.basename(cfg)))
     shutil.copyfile(cfgpath, local_cfg)
     jopts = ["-XX:+UseParallelGC", "-Xss64m"]
     if heap:
